@@ -12,8 +12,8 @@ RULE = ('Hypothesis histories on ONE ModelLoader: input(chunk of the statements 
         'population, statements in a drawn order), build (IntegerGenerator / UUIDGenerator / default), and mutations '
         'of the i-th built metamodel: new, delete, attribute write, relate, unrelate, append/insert/delete_attribute, '
         'define_unique_identifier, define_class + define_association + formalize. Oracle: after every step every '
-        'other built metamodel re-serializes to the snapshot taken when it was built (or last mutated itself) and '
-        'keeps its canonical form (links navigated both ways); every build equals the build of a FRESH loader fed '
+        'other built metamodel re-serializes to the snapshot taken when it was built (or last mutated itself), '
+        'keeps its canonical form (links navigated both ways) and the next id its generator would hand out; every build equals the build of a FRESH loader fed '
         'the same inputs. non-trivial = >= 2 builds with an input between them and >= 1 schema-level mutation before a '
         'later build; distinct = by case.')
 ASSUMPTIONS = [
@@ -162,7 +162,9 @@ def mutate(m, what, a, b, c, case):
 
 def snapshot(m, case):
     try:
-        return xtuml.serialize(m), canon(m)
+        # the id a metamodel would hand out next is part of its state: creating instances in another metamodel (or
+        # building one) must not use it up
+        return xtuml.serialize(m), canon(m), m.id_generator.peek()
     except Exception as e:
         raise Violation('snapshot-exception:' + exc_bucket(e), case, repr(e))
 
@@ -208,8 +210,8 @@ def run_case(case, res=None):
                 continue
             except Exception as e:
                 fail('build-exception:' + exc_bucket(e), repr(e))
-            s_m, c_m = snapshot(m, case)
-            s_r, c_r = snapshot(ref, case)
+            s_m, c_m, _p = snapshot(m, case)
+            s_r, c_r, _p = snapshot(ref, case)
             if s_m != s_r or c_m != c_r:
                 why = 'after-schema-mutation' if schema_mut else 'plain'
                 fail('build-differs-from-fresh-loader:' + why,
@@ -218,7 +220,11 @@ def run_case(case, res=None):
                 nbuild_after_input += 1
                 if schema_mut:
                     schema_mut_before_build = True
-            built.append([m, (s_m, c_m)])
+            for j, (mj, snap) in enumerate(built):
+                now = snapshot(mj, case)
+                if now != snap:
+                    fail('build-visible-in-other-metamodel', 'build %d changed metamodel %d:\n%s' % (len(built), j, _diff3(snap, now)))
+            built.append([m, snapshot(m, case)])
             input_since_build = False
             steps.append('build')
         else:
@@ -240,12 +246,18 @@ def run_case(case, res=None):
                 now = snapshot(mj, case)
                 if now != snap:
                     fail('mutation-visible-in-other-metamodel:%s' % op[2],
-                         'mutating metamodel %d (%s) changed metamodel %d:\n%s' % (i, op[2], j, _diff(snap[0], now[0])))
+                         'mutating metamodel %d (%s) changed metamodel %d:\n%s' % (i, op[2], j, _diff3(snap, now)))
             built[i][1] = snapshot(built[i][0], case)
     if res is not None:
         nt = nbuild_after_input >= 1 and schema_mut_before_build
         cl = ['builds-%d' % min(len(built), 3)] + sorted(set(s for s in steps if s.startswith('mutate-')))
         res.case(case, nt, sample={'statements': stm, 'ops': case['ops']} if nt and len(repr(stm)) < 1500 else None, classes=cl)
+
+
+def _diff3(snap, now):
+    if snap[2] != now[2]:
+        return 'next id of its generator was %r, is %r' % (snap[2], now[2])
+    return _diff(snap[0], now[0])
 
 
 def _diff(a, b):
